@@ -31,6 +31,7 @@ import (
 	"github.com/nuts-foundation/nuts-node/storage"
 	"net/http"
 	"net/url"
+	"sync"
 )
 
 func (r Wrapper) CreateDPoPProof(ctx context.Context, request CreateDPoPProofRequestObject) (CreateDPoPProofResponseObject, error) {
@@ -87,6 +88,10 @@ func (r Wrapper) ValidateDPoPProof(_ context.Context, request ValidateDPoPProofR
 		return ValidateDPoPProof200JSONResponse{Reason: &reason}, nil
 	}
 	// check if the jti is already used, if not add it to the store for the duration of the access token lifetime
+	// the check and the registration are separate store operations: serialize them,
+	// otherwise concurrent requests with the same proof can all find the jti unused.
+	dpopJTIMutex.Lock()
+	defer dpopJTIMutex.Unlock()
 	var target struct{}
 	if err := r.useNonceOnceStore().Get(dpopToken.Token.JwtID(), &target); err != nil {
 		if !errors.Is(err, storage.ErrNotFound) {
@@ -105,6 +110,9 @@ func (r Wrapper) ValidateDPoPProof(_ context.Context, request ValidateDPoPProofR
 
 	return ValidateDPoPProof200JSONResponse{Valid: true}, nil
 }
+
+// dpopJTIMutex makes checking and registering the jti of a DPoP proof atomic (on this node).
+var dpopJTIMutex sync.Mutex
 
 func dpopFromRequest(httpRequest http.Request) (*dpop.DPoP, error) {
 	dpopHeader := httpRequest.Header.Get("DPoP")
